@@ -7,7 +7,7 @@ package store
 // Fields of Store that are set when the Store is built (New) or opened (Open) and never
 // re-assigned afterwards; checked syntactically over the package (obligations #stable[f]).
 //@ type Store
-//@   stable db, dbDir, snapshotCAS, fsmTarget, appliedTarget, open, reqMarshaller, throttler, readyChans, fsmUpdateTime, appendedAtTime, dbModifiedTime, raft, snapshotStore, cmdProc, dechunkManager, raftTn, logger, raftID, walStagingDir, walPath, cleanSnapshotPath
+//@   stable db, dbDir, snapshotCAS, fsmTarget, appliedTarget, open, reqMarshaller, throttler, readyChans, fsmUpdateTime, appendedAtTime, dbModifiedTime, raft, snapshotStore, cmdProc, dechunkManager, raftTn, logger, raftID, walStagingDir, walPath, cleanSnapshotPath, dbPath
 //@   stable_set_in New, Open
 //
 // ---- C31: shutdown waits for the gate only as long as needed ----------------------------------
@@ -598,6 +598,44 @@ package store
 //@   ghost update @RecoverNode: recovered = (result == nil)
 //@   assert @createDBOnDisk: [rebuild-database-after-recovery] recovered ==> (arg2 && !fast)
 //@   assert @createDBOnDisk: [fast-path-keeps-files] arg2 == !fast
+// C03: the fast path (keep the SQLite file, skip the restore, replay the log after the newest stored
+// snapshot) is taken only when the marker exists, parses, and agrees with the database file on
+// modification time and size, with the snapshot gate held for the checksum goroutine; otherwise
+// the stale marker is removed before the database is rebuilt.
+//@   ghost var markerThere bool = false
+//@   ghost var parsed bool = false
+//@   ghost var statOK bool = false
+//@   ghost var mtEq bool = false
+//@   ghost var szEq bool = false
+//@   ghost var gateHeld bool = false
+//@   ghost var hadSnaps bool = false
+//@   ghost var markerRemoveTried bool = false
+//@   ghost var newestIdx int = 0
+//@   ghost var newestOK bool = false
+//@   ghost update after @snapshotStore.Len: hadSnaps = (result != 0)
+//@   ghost update after @fsutil.PathExists: markerThere = ite(arg0 == s.cleanSnapshotPath, result, markerThere)
+//@   ghost update after @fp.ReadFromFile: parsed = (result == nil && arg0 == s.cleanSnapshotPath)
+//@   ghost update after @fsutil.ModTimeSize: statOK = (result2 == nil && arg0 == s.dbPath)
+//@   assert @mt.Equal: [compares-with-the-marker] arg0 == fp.ModTime
+//@   ghost update after @mt.Equal: mtEq = result
+//@   ghost update after @mt.Equal: szEq = (sz == fp.Size)
+//@   ghost update after @s.snapshotCAS.Begin: gateHeld = (result == nil)
+//@   assert @set:raftConfig.NoSnapshotRestoreOnStart: [fast-path-only-with-matching-marker] hadSnaps && markerThere && parsed && statOK && mtEq && szEq
+//@   assert @set:raftConfig.NoSnapshotRestoreOnStart: [fast-path-holds-the-gate-for-the-checksum] gateHeld
+//@   ghost update after @snapshotStore.LatestIndexTerm: newestIdx = result0
+//@   ghost update after @snapshotStore.LatestIndexTerm: newestOK = (result2 == nil)
+//@   assert @s.fsmIdx.Store: [replay-starts-after-the-newest-stored-snapshot] (!fast && arg0 == 0) || (fast && newestOK && arg0 == newestIdx)
+//@   assert @s.dbAppliedIdx.Store: [replay-starts-after-the-newest-stored-snapshot] (!fast && arg0 == 0) || (fast && newestOK && arg0 == newestIdx)
+//@   ghost update after @fsutil.RemoveFile: markerRemoveTried = (markerRemoveTried || arg0 == s.cleanSnapshotPath)
+//@   assert @createDBOnDisk: [stale-marker-removed-before-rebuild] (arg2 && hadSnaps) ==> markerRemoveTried
+//
+// The checksum goroutine of the fast path releases the snapshot gate on every path.
+//@ func (*Store) Open$go1
+//@   requires [built] s != nil && s.snapshotCAS != nil
+//@   assigns **
+//@   ghost var ended bool = false
+//@   ghost update after @s.snapshotCAS.End: ended = true
+//@   ensures [gate-released] ended
 
 // ---- C04: the chain full snapshot + WAL segments stays a faithful copy of the applied database ------
 // snapshotDueNext: an incremental snapshot is chosen only when the snapshot store says the chain is
@@ -707,3 +745,59 @@ package store
 //@   assert @s.createSnapshotFingerprint: [marker-recreated-only-after-swap] swapped
 //@   ghost var swapped bool = false
 //@   ghost update after @s.db.Swap: swapped = (result == nil)
+
+// ---- C03: what licenses the fast restart --------------------------------------------------------------
+// Persist: the finalizer writes the clean-snapshot fingerprint, which lets the next start keep the
+// SQLite file, skip the restore and replay the log after the NEWEST STORED snapshot. It may
+// therefore run only after the snapshot has been written AND installed (sink.Close() == nil);
+// the outcome flags read by Release are set on every path.
+//@ func (*FSMSnapshot) Persist
+//@   requires [recv] f != nil && f.FSMSnapshot != nil
+//@   assigns **
+//@   ghost var innerOK bool = false
+//@   ghost var installed bool = false
+//@   ghost var finalized bool = false
+//@   ghost var finalErr error = nil
+//@   assert @f.FSMSnapshot.Persist: [writes-into-the-given-sink] arg0 == sink
+//@   ghost update after @f.FSMSnapshot.Persist: innerOK = (result == nil)
+//@   ghost update after @?sink.Close: installed = (result == nil)
+//@   assert @f.Finalizer: [fingerprint-only-after-install] innerOK && installed
+//@   ghost update after @f.Finalizer: finalized = true
+//@   ghost update after @f.Finalizer: finalErr = result
+//@   ensures [nil-means-written] retError == nil ==> innerOK
+//@   ensures [finalizer-error-returned] (finalized && finalErr != nil) ==> retError != nil
+//@   ghost var invokedSet bool = false
+//@   ghost var succSet bool = false
+//@   ghost update @set:f.persistInvoked: invokedSet = true
+//@   ghost update @set:f.persistSucceeded: succSet = true
+//@   ensures [invoked-recorded] invokedSet
+//@   ensures [outcome-recorded] (retError == nil) == succSet
+//
+// createSnapshotFingerprint: the marker is written to a temporary name and renamed into place, so
+// a crash leaves no marker, the old one or the complete new one; it describes the database file.
+//@ func (*Store) createSnapshotFingerprint
+//@   requires [built] s != nil && s.db != nil
+//@   assigns **
+//@   ghost var tmpWritten bool = false
+//@   ghost var tmpP string = ""
+//@   assert @rsum.CRC32WithTiming: [checksum-of-the-database-file] arg0 == s.dbPath
+//@   assert @fp.WriteToFile: [written-under-a-temporary-name] arg0 != s.cleanSnapshotPath && arg0 == s.cleanSnapshotPath + ".tmp"
+//@   ghost update after @fp.WriteToFile: tmpWritten = (result == nil)
+//@   ghost update after @fp.WriteToFile: tmpP = arg0
+//@   assert @os.Rename: [renamed-into-place-only-when-complete] tmpWritten && arg0 == tmpP && arg1 == s.cleanSnapshotPath
+//
+// createDBOnDisk: on both branches whatever WAL is lying around is removed before the database is
+// opened (its content is either in the snapshot + log, or will be replayed from the log).
+//@ func createDBOnDisk
+//@   assigns **
+//@   ghost var cleaned bool = false
+//@   assert @?sql.RemoveFiles: [all-files] remove && arg0 == path
+//@   ghost update after @?sql.RemoveFiles: cleaned = (result == nil)
+//@   assert @?sql.RemoveWALFiles: [wal-files] !remove && arg0 == path
+//@   ghost update after @?sql.RemoveWALFiles: cleaned = (result == nil)
+//@   assert @sql.OpenSwappable: [no-stale-wal-at-open] cleaned && arg0 == path
+//
+//@ func (*FileFingerprint) Compare
+//@   requires [recv] f != nil
+//@   ensures [size-must-match] result ==> f.Size == sz
+//@   ensures [checksum-must-match-when-recorded] result ==> (f.CRC32 == crc || f.CRC32 == 0)
